@@ -30,13 +30,13 @@ CHECKS = {
          "Exploration: only representations reachable through the public API are used, worst cases are constructed (limbs at 2^51+2^32, limb0 at 2^51+19*2^32) and approached by a magnitude-guided history search; the closed bound is approached, not enumerated.", "5 C09"),
  "C10": ("reference-model monitor: residues mod p vs. SetBytes/SetWideBytes/Bytes/Equal/IsNegative across representations; bit-for-bit Select/Swap check on raw limbs",
          "Exploration: all 19 non-canonical encodings, boundary residues in all 12 recipes, single bits of the wide input; sampled otherwise.", "5 C10"),
- "C11": ("differential monitor: every exported method x every set partition of {receiver, same-typed arguments} run with aliased vs. distinct storage; raw before/after snapshots of all non-written objects, slices and their neighbourhood",
+ "C11": ("differential monitor: every exported method x every set partition of {receiver, same-typed arguments} run with aliased vs. distinct storage; raw before/after snapshots of all non-written objects, slices and their neighbourhood; read-only arguments held in read-only (mprotect) memory during the distinct-storage run, so that even a store that is undone faults",
          "Exploration: the method x partition table (108 combinations) is enumerated completely and repeatedly with fresh values; argument values are sampled.", "5 C11"),
- "C12": ("invariant hooks over generated operation histories with a shadow model: coordinate validity (big ints), model agreement, bit-for-bit immutability of non-receivers, Equal sweeps, package-globals digest",
+ "C12": ("invariant hooks over generated operation histories with a shadow model: coordinate validity (big ints), model agreement, bit-for-bit immutability of non-receivers, Equal sweeps; package-globals digest drift recorded (not a verdict)",
          "Exploration: thousands of programs of 30-200 public operations with aliasing and zero-value receivers; the invariant is checked after every step; histories are sampled.", "3.3, 5 C12"),
  "C13": ("reference-model monitor: the three validity conditions in math/big vs. SetExtendedCoordinates over valid quadruples and single-condition violations in every representation of zero; export/re-import",
          "Exploration: each way of violating exactly one condition, all-zero in 6 representations of zero, aliased arguments; sampled otherwise.", "5 C13"),
- "C14": ("state-snapshot monitor: raw receiver/input snapshots around the seven fallible setters for invalid and valid inputs x receiver states",
+ "C14": ("state-snapshot monitor: raw receiver/input snapshots around the seven fallible setters for invalid and valid inputs x receiver states; inputs in spare-capacity buffers, against PROT_NONE guard pages and in read-only pages during the call; input overwritten after success (retention)",
          "Exploration: all wrong lengths up to 100, content failures, four receiver states; sampled contents.", "5 C14"),
  "C15": ("enumerated misuse monitor: recover() around every exported Point operation x every subset of zero-value input positions, multi-scalar element positions and length pairs; zero-value pure receivers checked against the model",
          "Exploration: the (operation, position) table is enumerated completely; the other argument values are sampled.", "5 C15"),
@@ -44,9 +44,9 @@ CHECKS = {
          "Exploration: all case classes of the contract incl. (0,0), (u,0), +-i ratios; sampled values.", "5 C16"),
  "C17": ("reference-model monitor: (1+y)/(1-y) in math/big and crypto/ecdh X25519 public keys vs. BytesMontgomery, also on long-lived objects re-assigned after an earlier encoding",
          "Exploration: whole-group points in all construction routes plus an independent second oracle; sampled.", "5 C17"),
- "C18": ("Go race detector over cold child processes with simultaneous first use (injected delays at construction entries) + entry-counter monitor (each sync.Once body at most once, construction counts equal to a sequential cold process) + concurrent vs. sequential transcripts + cross-process package-state digests",
+ "C18": ("Go race detector over cold child processes with simultaneous first use (injected delays at construction entries) + entry-counter monitor (each sync.Once body at most once, bulk construction counts equal to a sequential cold process) + concurrent vs. sequential transcripts incl. multi-scalar calls of different lengths (cross-process package-state digests recorded only)",
          "Exploration of schedules: 40 (quick) / 600 (thorough) cold processes with 2-64 goroutines; contention is measured, not assumed. Only schedules the Go scheduler plus delays produce are seen.", "3.7, 5 C18"),
- "C19": ("history monitor with mutation steps: scribbling over every kind of returned value followed by probe calls with model-known answers, memory-overlap checks, purity memo, package-globals digest (in-process and across processes, cold and warm)",
+ "C19": ("history monitor with mutation steps: scribbling over every kind of returned value followed by probe calls with model-known answers, memory-overlap checks, purity memo; every raw write into a returned value bracketed by two package-globals digests (exact); digest drift across library calls recorded only",
          "Exploration: thousands of programs; every mutation is followed by probes; half of the processes use the tables for the first time after mutations.", "5 C19"),
  "C20": ("cross-build differential monitor: the same seeded workload in the default (assembly), purego, GOARCH=386 and (where the CPU allows) GOAMD64=v3 builds, per-chunk transcripts compared by the controller; math/big oracle and limb bound in each build; guard pages around the assembly operands; callee-saved register (BP) monitor around the assembly calls",
          "Exploration: Multiply/Square on limb-maximal reachable operands in all aliasing patterns at page edges, plus a deterministic whole-API program, under the two configurations the property names plus GOARCH=386 (portable code, 32-bit int) and GOAMD64=v3 (level-specific assembly and compiler output), all executable on this machine.", "3.7, 5 C20, 9.6"),
